@@ -24,7 +24,7 @@ DTYPES = ["bool", "int8", "int16", "int32", "int64", "uint8", "uint16", "uint32"
 FILLS = ["zero", "a5", "ff", "prng", "stale"]
 RULE = (
     "all 14 numeric dtypes and all ordered pairs x {polynomial(x, dtype=), aspolynomial(x, dtype=), polynomial_from_attributes("
-    "dtype=, incl. mixed-dtype coefficient lists), polynomial(dict), variable/symbols(dtype=), astype, +, -, *, **, indexing, "
+    "dtype=, incl. mixed-dtype coefficient lists), raw structured arrays with mixed field types, polynomial(dict), variable/symbols(dtype=), astype, +, -, *, **, indexing, "
     "reshape/transpose/concatenate/where, full/zeros/ones(_like), diff/ediff1d, set_dimensions, results with zero surviving terms "
     "(p-p, p*0, where(False), all terms dropped)} over small integer-valued data; every step runs under 3 heap fills (quick) / all "
     "5 (thorough) with red zones. Distinct non-trivial = distinct (operation, dtype pair, operand shape/term structure, fill) "
